@@ -77,6 +77,9 @@ func isKeeperIface(name string) bool {
 		return false
 	}
 	recv := name[1:i]
+	if strings.Contains(recv, "/keeper.") {
+		return false // the concrete Keeper structs, not the expected-keeper interfaces
+	}
 	return strings.HasSuffix(recv, "Keeper") || strings.HasSuffix(recv, "Hook") || strings.HasSuffix(recv, "Store")
 }
 
